@@ -612,4 +612,39 @@ private def fileStats (s : St) (dir : String) : Option (List (Nat × Nat × Nat)
 -- was staged); the batch's last record shares file 5 with the sealing record
 #guard fileStats (stateAt "d" cfgT bigH 8) "d" = some [(0, 0, 0), (1, 113, 1), (2, 13, 1), (3, 113, 1), (4, 113, 1), (5, 25, 2)]
 
+/-! ### a third history: a `Merge` that FAILS with the id conflict, then a (non-adopting) restart
+
+Reopened with `DataFileSize = 1` every rewritten record needs a file of its own, the output would reach
+the id of the active file: `Merge` answers `ErrMergeFileIDConflict` (`mergeids`).  `Stat` stays exact;
+the merge directory has no marker, the following restart adopts nothing and computes exactly the
+replay's counters.  (The marker-less merge directory — here two files, 13 bytes — stays on disk until
+the next `Merge` removes it; no `Open` looks at it and `Stat` does not count it.  Same in Go.) -/
+
+private def cfgA : Cfg := { fileSize := 1000, sync := 0, bps := 0, idx := 0, io := 0, shards := 1 }
+private def cfgB : Cfg := { fileSize := 1, sync := 0, bps := 0, idx := 0, io := 0, shards := 1 }
+def conflictH : List HOp :=
+  [.a (.put (kb "a") (kb "1")), .a (.put (kb "c") (kb "4")), .a (.put (kb "a") (kb "2")), .restart cfgB, .merge [0],
+   .a (.put (kb "e") (kb "5")), .restart cfgA, .a (.get (kb "a"))]
+
+theorem conflict_ok : ∀ op ∈ conflictH, HOpOK "d" op ∧ HOpSmall op := by decide
+theorem conflict_runOK : RunOK "d" (openDB St.init "d" cfgA).1 conflictH :=
+  runOK_of_small "d" cfgA (by decide) conflictH conflict_ok (by decide) (by decide) (by decide)
+
+/-- after the failed merge, and after the restart that follows it -/
+example : (∃ db g d, StatAt "d" (stateAt "d" cfgA conflictH 5) (specAt conflictH 5).m db g d) ∧
+    RestartCounters "d" (stateAt "d" cfgA conflictH 6) (stateAt "d" cfgA conflictH 7) :=
+  have := C17_history_counters "d" cfgA (by decide) conflictH (fun op h => (conflict_ok op h).1) (by decide) conflict_runOK
+  ⟨this.1 5 (by decide), this.2 6 (by decide) cfgA rfl⟩
+
+#guard (match (hstep "d" (stateAt "d" cfgA conflictH 4) (.merge [0])).2 with | [.err e] => e == "mergeids" | _ => false)
+-- (KeyNum, DataFileNum, Reclaimable, DiskSize) before the merge, after it (one more file), after the next write, after
+-- the restart: nothing drifts, nothing is adopted
+#guard [4, 5, 6, 7].map (fun n =>
+    let s := stateAt "d" cfgA conflictH n
+    s.db.map (fun db => ((stat s db).keys, (stat s db).files, (stat s db).reclaim, (stat s db).disk)))
+  = [some (2, 1, 13, 39), some (2, 2, 13, 39), some (3, 3, 13, 52), some (3, 3, 13, 52)]
+#guard [5, 7].map (fun n => ((stateAt "d" cfgA conflictH n).world.get "d-merge").map
+    (fun d => (d.marker.isSome, d.data.map (fun x => (x.1, x.2.bytes.size)))))
+  = [some (false, [(0, 0), (1, 13)]), some (false, [(0, 0), (1, 13)])]
+
 end XixiKV.C17H
